@@ -361,6 +361,12 @@ func (e *Engine) episode(ops []string, res *report.Result) *report.Failure {
 	var apiBusy atomic.Int32
 	everTimeout := map[string]bool{}
 	everLimit := map[string]bool{}
+	everSlicer := map[string]bool{}
+	// C11 (moment of the close): directions whose only toxic ever is one limit_data toxic at toxicity 1
+	// ("" none yet, "*" disqualified), and the limits it had, with the virtual time they were set
+	limOnly := map[string]string{}
+	type limEv struct{ at, lim int64 }
+	limHist := map[string][]limEv{}
 	// a probe is valid only as generated: `mark`, then the same payloads on both links and
 	// nothing but clock advances in between (the minimiser must not shrink it into something else)
 	probeMarked := false
@@ -368,6 +374,8 @@ func (e *Engine) episode(ops []string, res *report.Result) *report.Failure {
 	toxDir := map[string]string{}
 	toxType := map[string]string{}
 	allowBlock := false
+	sawBadUpdate := false
+	sinkAlways := map[string]bool{}
 	freeRun := false
 	chainOf := map[string][]string{} // direction -> names in chain order (the harness' own view)
 	attrsOf := map[string][3]int64{}
@@ -447,6 +455,7 @@ func (e *Engine) episode(ops []string, res *report.Result) *report.Failure {
 					}
 				}
 				links[w[1]] = l
+				sinkAlways[w[1]] = true
 				order = append(order, w[1])
 				d := stream.Upstream
 				if w[2] == "down" {
@@ -487,7 +496,12 @@ func (e *Engine) episode(ops []string, res *report.Result) *report.Failure {
 			}
 		case "sink":
 			l := links[w[1]]
-			exec = func() { l.setReady(w[2] == "1") }
+			exec = func() {
+				if w[2] != "1" {
+					sinkAlways[w[1]] = false
+				}
+				l.setReady(w[2] == "1")
+			}
 			if l == nil {
 				exec = nil
 			}
@@ -514,6 +528,15 @@ func (e *Engine) episode(ops []string, res *report.Result) *report.Failure {
 				}
 				if w[3] == "limit_data" {
 					everLimit[w[1]] = true
+				}
+				if w[3] == "slicer" {
+					everSlicer[w[1]] = true
+				}
+				if limOnly[w[1]] == "" && w[3] == "limit_data" && w[7] == "1" {
+					limOnly[w[1]] = w[2]
+					limHist[w[1]] = append(limHist[w[1]], limEv{since(), a1})
+				} else {
+					limOnly[w[1]] = "*"
 				}
 				chainOf[w[1]] = append(chainOf[w[1]], w[2])
 				attrsOf[w[2]] = [3]int64{a1, a2, a3}
@@ -564,6 +587,11 @@ func (e *Engine) episode(ops []string, res *report.Result) *report.Failure {
 			exec = func() {
 				d := toxDir[w[1]]
 				was := toxOn[w[1]]
+				if limOnly[d] == w[1] && w[6] == "1" {
+					limHist[d] = append(limHist[d], limEv{since(), a1})
+				} else if limOnly[d] != "" {
+					limOnly[d] = "*"
+				}
 				attrsOf[w[1]] = [3]int64{a1, a2, a3}
 				lastCfg[d] = since()
 				for _, l := range links {
@@ -613,12 +641,26 @@ func (e *Engine) episode(ops []string, res *report.Result) *report.Failure {
 					apiBusy.Add(-1)
 				}()
 			}
+		case "updbad":
+			// a toxic update whose body does not decode: answered with an error, changes nothing -
+			// not the configuration and not the treatment of the connections (C06). For the model
+			// it is no operation at all.
+			line = "adv 0"
+			exec = func() {
+				sawBadUpdate = true
+				apiBusy.Add(1)
+				go func() {
+					proxy.Toxics.UpdateToxicJson(w[1], strings.NewReader(`{"attributes":{"latency":"x","rate":"x","delay":"x","timeout":"x","bytes":"x","average_size":"x"},"toxicity":"x"}`))
+					apiBusy.Add(-1)
+				}()
+			}
 		case "del":
 			exec = func() {
 				if toxType[w[1]] == "limit_data" {
 					c11Off[toxDir[w[1]]] = true
 				}
 				d := toxDir[w[1]]
+				limOnly[d] = "*"
 				lastCfg[d] = since()
 				for k, n := range chainOf[d] {
 					if n == w[1] {
@@ -651,6 +693,7 @@ func (e *Engine) episode(ops []string, res *report.Result) *report.Failure {
 					chainOf[d] = nil
 					lastCfg[d] = since()
 				}
+				limOnly["up"], limOnly["down"] = "*", "*"
 				for _, l := range links {
 					l.latMin, l.dueClose = -1, -1
 				}
@@ -857,13 +900,52 @@ func (e *Engine) episode(ops []string, res *report.Result) *report.Failure {
 			l.mu.Lock()
 			got := append([]byte(nil), l.all...)
 			l.mu.Unlock()
-			if of := e.streamOracle(fail, len(ops)-1, l, got, everTimeout[l.dir], everLimit[l.dir]); of != nil {
+			if of := e.streamOracle(fail, len(ops)-1, l, got, everTimeout[l.dir], everLimit[l.dir], everSlicer[l.dir]); of != nil {
 				result = of
 				break
 			}
 			if of := capOracle(fail, len(ops)-1, l, got, c10Off[l.dir], c11Off[l.dir]); of != nil {
 				result = of
 				break
+			}
+			// C11: with a limit_data toxic as the only toxic its direction ever had (in place before the
+			// connection), the connection is closed by data that reaches the limit in force when it
+			// arrives - not by the toxic being started or updated
+			if nm := limOnly[l.dir]; nm != "" && nm != "*" && l.born > limHist[l.dir][0].at && apiBusy.Load() == 0 {
+				l.mu.Lock()
+				closed, closedAt, lfail := l.closed, l.closedAt, l.fail
+				l.mu.Unlock()
+				if closed && !l.eof && !lfail {
+					justified := false
+					for k, sg := range l.sentAt {
+						end := len(l.sent)
+						if k+1 < len(l.sentAt) {
+							end = l.sentAt[k+1].off
+						}
+						if sg.at > closedAt {
+							break
+						}
+						// the limit set last before the chunk, and any limit set at that very instant
+						var cand []int64
+						last := int64(-1)
+						for _, ev := range limHist[l.dir] {
+							if ev.at < sg.at {
+								last = ev.lim
+							} else if ev.at == sg.at {
+								cand = append(cand, ev.lim)
+							}
+						}
+						cand = append(cand, last)
+						for _, lim := range cand {
+							justified = justified || int64(end) >= lim
+						}
+					}
+					if !justified {
+						result = fail(len(ops)-1, "oracle", "C11", "open until data reaches the limit", fmt.Sprintf("link %s: closed at t=%d with %d bytes handed in; limits %v", l.name, closedAt, len(l.sent), limHist[l.dir]),
+							"a connection under a limit_data toxic was closed although no data had arrived that reaches the limit (the close belongs to the first data at or beyond the limit, not to the toxic being started or updated)", "e3:C11:closed-before-limit")
+						break
+					}
+				}
 			}
 		}
 	}
@@ -914,7 +996,53 @@ func (e *Engine) episode(ops []string, res *report.Result) *report.Failure {
 				break
 			}
 			if of := timingOracle(fail, len(ops)-1, l, since(), failed[l.name], everTimeout[l.dir]); of != nil && (result == nil || e.OracleOnly) {
+				if sawBadUpdate {
+					of.Property, of.Sig = "C06", "e3:C06:rejected-update-changed-treatment"
+					of.What = "after a toxic update that was rejected (undecodable body): " + of.What
+				}
 				result = of
+				break
+			}
+			// C04/C08: a direction whose only toxic is a latency toxic (toxicity 1, jitter 0, latency L
+			// as listed now): with a receiver that was ready throughout, every byte has arrived by
+			// max(hand-in + L, last toxic change) - a connection made before the last update included
+			if ch := chainOf[l.dir]; len(ch) == 1 && toxType[ch[0]] == "latency" && toxOn[ch[0]] && attrsOf[ch[0]][1] == 0 && attrsOf[ch[0]][0] >= 0 &&
+				sinkAlways[l.name] && !failed[l.name] && (result == nil || e.OracleOnly) {
+				L := attrsOf[ch[0]][0] * 1000000
+				l.mu.Lock()
+				off := 0
+				for _, wr := range l.hist {
+					var first int64 = -1
+					for _, sg := range l.sentAt {
+						if sg.off <= off {
+							first = sg.at
+						}
+					}
+					off += len(wr.data)
+					due := first + L
+					if lastCfg[l.dir] > due {
+						due = lastCfg[l.dir]
+					}
+					if first >= 0 && wr.at > due+1000000 {
+						prop, sig := "C08", "e3:C08:forwarded-late"
+						if lastCfg[l.dir] > l.born {
+							prop, sig = "C04", "e3:C04:update-not-in-effect-on-old-connection"
+						}
+						result = fail(len(ops)-1, "oracle", prop, fmt.Sprintf("by t=%d", due), fmt.Sprintf("link %s: bytes handed in at t=%d forwarded at t=%d (latency listed: %d ms, last toxic change t=%d)", l.name, first, wr.at, attrsOf[ch[0]][0], lastCfg[l.dir]),
+							"with a ready receiver a piece was held longer than the listed latency (counted from its arrival, or from the toxic's last update if that is later)", sig)
+						break
+					}
+				}
+				l.mu.Unlock()
+				if result != nil {
+					break
+				}
+			}
+			// C15/C07: whatever the toxics - the source has ended, the receiver accepts, unlimited
+			// virtual time has passed, no API call is pending: the link has ended
+			if !closed && !failed[l.name] && apiBusy.Load() == 0 && (result == nil || e.OracleOnly) {
+				result = fail(len(ops)-1, "oracle", "C15", "closed", fmt.Sprintf("link %s: still open", l.name),
+					"a connection whose sender has ended and whose receiver accepts everything never ends (its goroutines and its entry in the collection stay)", "e3:C15:link-never-ends")
 				break
 			}
 			// C12: a direction whose only toxic is a slicer (toxicity 1): every piece written after
@@ -923,8 +1051,18 @@ func (e *Engine) episode(ops []string, res *report.Result) *report.Failure {
 				a := attrsOf[ch[0]]
 				if bound := a[0] + a[1]; a[0] > 0 && a[1] >= 0 && a[1] < a[0] {
 					l.mu.Lock()
+					off := 0
 					for _, wr := range l.hist {
-						if wr.at > lastCfg[l.dir] && wr.at > l.born && int64(len(wr.data)) > bound {
+						// only pieces all of whose bytes were handed to the proxy after the toxic's last
+						// change: what was already past the slicer's position (or buffered) then is not its
+						first := int64(-1)
+						for _, sg := range l.sentAt {
+							if sg.off <= off {
+								first = sg.at
+							}
+						}
+						off += len(wr.data)
+						if first > lastCfg[l.dir] && wr.at > l.born && int64(len(wr.data)) > bound {
 							result = fail(len(ops)-1, "oracle", "C12", fmt.Sprintf("pieces of at most %d bytes", bound), fmt.Sprintf("link %s: a piece of %d bytes at t=%d (last toxic change at t=%d)", l.name, len(wr.data), wr.at, lastCfg[l.dir]),
 								"with a slicer as the only toxic, a piece larger than average_size + size_variation was forwarded after the toxic's last update", "e3:C12:piece-too-large-after-update")
 							break
@@ -958,7 +1096,7 @@ func (e *Engine) episode(ops []string, res *report.Result) *report.Failure {
 			l.mu.Lock()
 			got := append([]byte(nil), l.all...)
 			l.mu.Unlock()
-			if of := e.streamOracle(fail, len(ops)-1, l, got, everTimeout[l.dir], everLimit[l.dir]); of != nil {
+			if of := e.streamOracle(fail, len(ops)-1, l, got, everTimeout[l.dir], everLimit[l.dir], everSlicer[l.dir]); of != nil {
 				if result == nil || e.OracleOnly {
 					result = of
 				}
@@ -1044,8 +1182,12 @@ func capOracle(fail func(int, string, string, string, string, string, string) *r
 // streamOracle: what a sink received is an in-order part of what its source sent, and a
 // prefix of it unless a timeout toxic was ever applied in that direction (C02); with no
 // dropping/truncating toxic ever present it is a prefix at all times (C01).
-func (e *Engine) streamOracle(fail func(int, string, string, string, string, string, string) *report.Failure, at int, l *lnk, got []byte, everTimeout, everLimit bool) *report.Failure {
+func (e *Engine) streamOracle(fail func(int, string, string, string, string, string, string) *report.Failure, at int, l *lnk, got []byte, everTimeout, everLimit, everSlicer bool) *report.Failure {
 	prop := "C02"
+	// (C12: "re-chunks without changing the stream" - a stream that passed a slicer and is changed)
+	if e.Props == "C12" && everSlicer {
+		prop = "C12"
+	}
 	if strings.Contains(","+e.Props+",", ",C01,") && !strings.Contains(","+e.Props+",", ",C02,") {
 		prop = "C01"
 	}
